@@ -338,7 +338,12 @@ def _histories(ctx, spec, g, path, ct, reqs, pending, case):
             if st0 != 'ok':
                 return
         impl = []
-        wsite = 'history-wrong-type' if oname.startswith('wrong-type') else 'history'
+        # a group read through its instance knows its coordinate type (handed down by the SOP class), one parsed on its own
+        # only when it stores a common z (3-D only): everywhere else the wrong type must be refused without side effect; the
+        # remaining region (parsed on its own, no common z) is the open finding C18-wrong-coordinate-type
+        standalone = path == 'group.from_dataset'
+        unknown_type = standalone and 'CommonZCoordinateValue' not in d
+        wsite = ('history-wrong-type' if unknown_type else 'history-wrong-type-known') if oname.startswith('wrong-type') else 'history'
         real_fail = ctx.fail
 
         def fail(c, detail, site=None):
@@ -351,7 +356,8 @@ def _histories(ctx, spec, g, path, ct, reqs, pending, case):
             real_fail(c, detail, site=site)
         for a in acc:
             c2 = dict(case, what='history', order=oname, access=list(a))
-            ctx.case(path=path + '/history', history=oname, nontrivial_key=('hist', oname, spec['gtype'], spec['zclass'], min(n, 6), path))
+            ctx.case(path=path + '/history', history=oname, nontrivial_key=('hist', oname, spec['gtype'], spec['zclass'], min(n, 6), path),
+                     history_type_known=('own parse, unknown' if unknown_type else 'own parse, common z' if standalone else 'via instance'))
             act = a[-1] if a[-1] in ('2D', '3D') else ct
             if act != ct:
                 # the other coordinate type must be refused (and must not change what later accesses return)
@@ -380,7 +386,7 @@ def _histories(ctx, spec, g, path, ct, reqs, pending, case):
                 elif st == 'ok':
                     fail(c2, f'annotation number {k} outside 1..{n} accepted on a freshly parsed group', site=f'history/{path}')
                 impl.append(['ok', [_tok(row) for row in np.asarray(res)]] if st == 'ok' else ['err', _kind(res)])
-        reqs.append(('history', {'gtype': spec['gtype'], 'enc': sv, 'ct': ct,
+        reqs.append(('history', {'gtype': spec['gtype'], 'enc': sv, 'ct': ct, 'via': None if standalone else ct,
                                  'accesses': [['whole', a[-1] if a[-1] in ('2D', '3D') else ct] if a[0] == 'whole' else
                                               ['nth', a[1], a[-1] if a[-1] in ('2D', '3D') else ct] for a in acc]}))
         pending.append((dict(case, what='history', order=oname), ('ok', impl)))
@@ -416,7 +422,8 @@ def _observe_group(ctx, spec, g, path, ct, reqs, pending, base):
     n = len(want)
     case = dict(base, path=path, group=spec['number'])
     if not path.startswith('fresh'):
-        _histories(ctx, spec, g, path, ct, reqs if path == 'annread' else [], pending if path == 'annread' else [], case)
+        hist_model = path in ('annread', 'group.from_dataset')
+        _histories(ctx, spec, g, path, ct, reqs if hist_model else [], pending if hist_model else [], case)
     prof = (min(spec['counts']), max(spec['counts']))
     key = (spec['gtype'], spec['dim'], spec['zclass'], spec['dtype'], min(n, 10), prof, path)
     ctx.case(sample=dict(case, gtype=spec['gtype'], counts=spec['counts'][:8], dtype=spec['dtype'], zclass=spec['zclass'])
@@ -827,7 +834,7 @@ def _run_object(ctx, specs, ct, base, idx, r, reqs, pending, stream):
             if st != 'ok':
                 ctx.fail(dict(base, path='group.from_dataset', group=s['number']), f'group dataset could not be parsed: {g2}', site='AnnotationGroup.from_dataset')
             else:
-                _observe_group(ctx, s, g2, 'group.from_dataset', ct, [], [], base)
+                _observe_group(ctx, s, g2, 'group.from_dataset', ct, reqs, pending, base)
 
 
 # ------------------------------------------------------------------ malformed input
@@ -1118,7 +1125,7 @@ def attribute(failure, open_findings):
     """failures of the wrong-coordinate-type histories (and only those) belong to the open finding"""
     ids = {f['id'] for f in open_findings} | {f['id'] for f in _open_findings_fallback()}
     site = failure.get('site') or ''
-    if site.startswith('history-wrong-type/') and 'C18-wrong-coordinate-type' in ids:
+    if site == 'history-wrong-type/group.from_dataset' and 'C18-wrong-coordinate-type' in ids:
         return 'C18-wrong-coordinate-type'
     return None
 
